@@ -279,6 +279,7 @@ def _det_entries(m):
 
 
 MAX_LINALG = 6
+_OPAQUE = 0
 
 
 def det(a):
@@ -291,7 +292,11 @@ def det(a):
     n = a.shape[0]
     assert a.shape == (n, n)
     if n > MAX_LINALG:
-        raise NotImplementedError("symbolic det of size %d" % n)
+        # too large to expand: an uninterpreted symbol (sound as long as nothing is concluded from its value)
+        global _OPAQUE
+        _OPAQUE += 1
+        _stub("np.linalg.det of a symbolic matrix larger than %dx%d -> uninterpreted symbol" % (MAX_LINALG, MAX_LINALG))
+        return Sym.var("det!opaque%d" % _OPAQUE)
     _stub("np.linalg.det -> exact cofactor expansion")
     return _det_entries([[a[i, j] for j in range(n)] for i in range(n)])
 
@@ -628,25 +633,38 @@ def _is_float_dtype(dt):
         return False
 
 
+def _nd(dtype):
+    """the builtin names float / complex are shimmed inside modules under test: map the shims back to dtypes"""
+    if dtype is _p_complex:
+        return complex
+    if dtype is _p_float:
+        return float
+    return dtype
+
+
 def _p_zeros(shape, dtype=None, **kw):
+    dtype = _nd(dtype)
     if not _is_float_dtype(dtype):
         return np.zeros(shape, dtype=dtype, **kw)
     return szeros(shape, 0)
 
 
 def _p_ones(shape, dtype=None, **kw):
+    dtype = _nd(dtype)
     if not _is_float_dtype(dtype):
         return np.ones(shape, dtype=dtype, **kw)
     return szeros(shape, 1)
 
 
 def _p_empty(shape, dtype=None, **kw):
+    dtype = _nd(dtype)
     if not _is_float_dtype(dtype):
         return np.empty(shape, dtype=dtype, **kw)
     return szeros(shape, 0)
 
 
 def _p_full(shape, fill_value, dtype=None, **kw):
+    dtype = _nd(dtype)
     if isinstance(fill_value, Sym) or _is_float_dtype(dtype):
         out = szeros(shape, 0)
         out[...] = tosym(fill_value)
@@ -655,18 +673,21 @@ def _p_full(shape, fill_value, dtype=None, **kw):
 
 
 def _p_identity(n, dtype=None, **kw):
+    dtype = _nd(dtype)
     if not _is_float_dtype(dtype):
         return np.identity(n, dtype=dtype)
     return sarray(np.identity(n, dtype=object))
 
 
 def _p_eye(n, m=None, k=0, dtype=None, **kw):
+    dtype = _nd(dtype)
     if not _is_float_dtype(dtype):
         return np.eye(n, m, k, dtype=dtype)
     return sarray(np.eye(n, m, k, dtype=object))
 
 
 def _p_zeros_like(a, dtype=None, **kw):
+    dtype = _nd(dtype)
     if isinstance(a, SymArray) or (dtype is not None and _is_float_dtype(dtype)):
         return szeros(np.shape(_strip(a)), 0)
     if isinstance(a, np.ndarray) and a.dtype.kind in "fc" and dtype is None:
@@ -675,12 +696,14 @@ def _p_zeros_like(a, dtype=None, **kw):
 
 
 def _p_ones_like(a, dtype=None, **kw):
+    dtype = _nd(dtype)
     if isinstance(a, SymArray) or (dtype is not None and _is_float_dtype(dtype)):
         return szeros(np.shape(_strip(a)), 1)
     return np.ones_like(a, dtype=dtype, **kw)
 
 
 def _p_array(x, dtype=None, copy=True, **kw):
+    dtype = _nd(dtype)
     if isinstance(x, SymArray):
         return x.copy() if copy else x
     if isinstance(x, Sym) or has_sym(x):
